@@ -19,6 +19,7 @@ from __future__ import annotations
 import json
 
 from vp.core import Check, Diff, Failure, enc, encb, load_corpus
+from vp.core import reraise_harness_fault as core_reraise
 
 META = dict(
     level_text="Lean 4 theorem C20_accept: for every engine definition (tags, uod commands with regex/default parsers, "
@@ -97,6 +98,9 @@ def observe(case: dict, pub, inp) -> dict:
     spec, pcode = case["spec"], case["pcode"]
     e = pub.engine_side
     obs: dict = {"exc": None}
+    sent = getattr(pub, "sent", None)     # via the aggregator: what the engine published last vs what the editor is given
+    obs["outdated"] = None if sent is None or published_text(sent) == published_text(pub.definition) else \
+        (published_text(sent), published_text(pub.definition))
     # --- the editor's analysis on the published definition (all analyzers) + the three modelled ones
     from openpectus.lsp import lsp_analysis
     from pylsp.workspace import Document, Workspace
@@ -183,6 +187,35 @@ def observe(case: dict, pub, inp) -> dict:
     probes = BASE_PROBES + [n.arguments for n, k in anodes if n.instruction_name == "Base"]
     obs["probe_ops"] = [f"baseprobe\t{enc(a)}" for a in probes]
     obs["probe_out"] = ["T" if base_rx is not None and re.search(base_rx, a) is not None else "F" for a in probes]
+    # the two sites that decide about a uod command's argument, on the same (command, argument) pairs: the validator the
+    # editor builds from the published definition, and the arg_parse_fn `UodCommand.parse_args` calls on the engine
+    from harness import c20_gen as G
+    uod_regex = {n: r for n, k, r in e["uod_cmds"] if k == "regex"}
+    arg_pairs = [(n.instruction_name, n.arguments) for n, k in anodes
+                 if k in ("command", "error") and n.instruction_name in uod_regex]
+    for c in spec["cmds"]:
+        if c["kind"] == "rawregex":
+            arg_pairs += [(c["name"], a) for a in G.raw_probe_args(c)]
+    arg_pairs = list(dict.fromkeys(arg_pairs))
+    obs["arg_pairs"] = arg_pairs
+    obs["argprobe_out"] = []
+    for name, a in arg_pairs:
+        if re.search(uod_regex[name], a) is not None:
+            emit(f"search\t{enc(uod_regex[name])}\t{enc(a)}")
+        obs["probe_ops"].append(f"argprobe\t{enc(name)}\t{enc(a)}")
+        try:
+            v = "T" if inp.commands.get(name).validate_args(a) else "F"
+        except Exception as ex:  # noqa: BLE001
+            core_reraise(ex)
+            v = "err:" + type(ex).__name__
+        try:
+            fn = pub.parse_fns[name]
+            pr = "T" if (fn is None or fn(a) is not None) else "F"
+        except Exception as ex:  # noqa: BLE001
+            core_reraise(ex)
+            pr = "err:" + type(ex).__name__
+        obs["argprobe_out"].append((v, pr))
+        obs["probe_out"].append(f"{v} {pr}")
     obs["ops"] = params + node_ops + obs["probe_ops"] + ["agree", "oracles", "analyze", "accept"]
     order = [n.position.line for n, _ in anodes if n.position.line in enodes]
     obs["accept"] = " ".join(f"{ln}:{enodes[ln]['static']}" for ln in order) or "none"
@@ -198,8 +231,25 @@ def judge(case: dict, obs: dict) -> list[Failure]:
     run = obs["run"]
     f = run["failure"]
     pub_case = {"spec": case["spec"], "pcode": case["pcode"]}
+    if case.get("prev_spec") is not None:
+        pub_case["prev_spec"] = case["prev_spec"]
+    fails = []
+    if obs.get("outdated"):
+        fails.append(Failure("analysis-uses-outdated-definition", pub_case,
+                             f"after the engine re-registered and sent its UodInfo the editor's analysis is still given "
+                             f"the earlier definition: engine published {obs['outdated'][0]} — fetch_uod_info answers "
+                             f"{obs['outdated'][1]}"))
+    # the same (command, argument) at both sites: what the editor's validator accepts the engine's parser must accept
+    for (name, a), (v, pr) in zip(obs.get("arg_pairs", []), obs.get("argprobe_out", [])):
+        if v == "T" and pr != "T":
+            kind = next((c["kind"] for c in case["spec"]["cmds"] if c["name"] == name), "?")
+            fails.append(Failure(f"validator-accepts-what-parse-rejects:uod-command:{kind}", pub_case,
+                                 f"command {name!r}, argument {a!r}: the validator built from the published definition "
+                                 f"accepts it (no analysis error), UodCommand.parse_args answers {pr} (the engine fails "
+                                 f"with 'Invalid arguments for command')"))
+            break
     if obs["all_errors"] or f is None:
-        return []
+        return fails
     detail = f["site"]
     if f["category"] == "invalid-argument" and f["site"] == "uod-command":
         name = f.get("command") or "?"
@@ -207,7 +257,7 @@ def judge(case: dict, obs: dict) -> list[Failure]:
         detail = "custom-parser" if kind == "custom" else f"uod-command:{kind}"
     line = f.get("line")
     src = case["pcode"].splitlines()[line] if line is not None and line < len(case["pcode"].splitlines()) else ""
-    return [Failure(f"clean-method-fails:{f['category']}:{detail}", pub_case,
+    return fails + [Failure(f"clean-method-fails:{f['category']}:{detail}", pub_case,
                     f"the analyzer reports no error for the method, the engine fails ({f['category']}, {detail}; "
                     f"{f.get('exc')} raised in {f.get('raised_in')}, node {f.get('node')}): {f['text'][:200]} "
                     f"— line {line} {src!r}")]
@@ -221,12 +271,35 @@ def gen_cases(ctx: Check) -> list[dict]:
     from harness import c20_gen as G
     rng = ctx.rng
     cases = [dict(c["case"], kind="corpus") for c in load_corpus("C20")]
-    for _ in range(ctx.n(40, 1500)):
+    for i in range(ctx.n(40, 1500)):
         spec = G.gen_spec(rng)
+        # every third uod: its definition reaches the editor through an in-process aggregator that has seen an earlier
+        # version of the uod (same names, other units / argument patterns) before the engine re-registered
+        prev = G.earlier_version(rng, spec) if i % 3 == 0 else None
         for _ in range(ctx.n(10, 12)):
-            cases.append({"spec": spec, "pcode": G.gen_method(rng, spec, rng.randrange(2, ctx.n(9, 12))),
-                          "kind": "generated"})
+            # methods are written against the current version or (to be rejected now) against the earlier one
+            target = prev if prev is not None and rng.random() < 0.4 else spec
+            cases.append({"spec": spec, "pcode": G.gen_method(rng, target, rng.randrange(2, ctx.n(9, 12))),
+                          "kind": "generated" if prev is None else "via-aggregator", "prev_spec": prev})
     return cases
+
+
+def published_for(H, spec: dict, prev_spec: dict | None, cache: dict | None = None):
+    """(Published, analysis input) for a case: straight from the engine's UodInfo message, or — with `prev_spec` — as the
+    editor gets it from a real aggregator that received the earlier version's UodInfo, a re-registration and then the
+    current UodInfo."""
+    cache = cache if cache is not None else {}
+    k = json.dumps([spec, prev_spec], sort_keys=True)
+    if k not in cache:
+        p = H.publish(spec)
+        if prev_spec is None:
+            cache[k] = (p, H.analysis_input(p.definition))
+        else:
+            definition, inp = H.via_aggregator([H.publish(prev_spec), p])
+            q = H.Published(definition, p.engine_side, p.parse_fns, p.wire)
+            q.sent = p.definition          # what the engine published last
+            cache[k] = (q, inp)
+    return cache[k]
 
 
 def run(ctx: Check) -> int:
@@ -236,22 +309,24 @@ def run(ctx: Check) -> int:
     ctx.prove(MODULE, REQUIRED, extra_targets=["OPM.Gen.UnitTable"])
     ctx.rule = ("UODs: 2–6 tags (units incl. %, vol%, wt%, mol%, temperatures, flows, CV, none; numeric or text values), "
                 "2–6 commands built with RegexNumber / RegexNumberOptional / RegexCategorical (options with regex "
-                "metacharacters) / RegexText / no-argument / default parser / custom Python parser (low weight), base-unit "
+                "metacharacters) / RegexText / a uod author's own expression (not anchored at the start / the end / either / anchored; "
+                "arguments with text in front of / behind the matching part) / no-argument / default parser / custom Python parser (low weight), base-unit "
                 "providers none | volume | volume+CV. Methods of 2–9/12 lines, mostly valid against the published "
                 "definition: uod commands with arguments from the language of their pattern (80 %) or near misses, "
                 "Watch/Alarm/Simulate on defined tags with the same / another unit of the quantity / a foreign unit, "
                 "Simulate off, Base over the static unit list, Wait, Run counter, Pause/Hold/Info/Warning, blocks, "
-                "thresholds, undefined names at low weight. Non-trivial = the method is analyzer-clean and at least one "
+                "thresholds, undefined names at low weight. Every uod regex command's argument is put to both deciding functions on the "
+                "same pairs (validator built from the published definition, UodCommand.parse_args' parser; fixed "
+                "prefix/suffix probes per hand-written expression). For every third UOD the definition reaches the analysis "
+                "through a real in-process aggregator that got the UodInfo of an earlier version of the uod (same names, "
+                "other units / patterns), a re-registration and the current UodInfo; 40 % of those methods are written "
+                "against the earlier version. Non-trivial = the method is analyzer-clean and at least one "
                 "of its instructions was started on the engine.")
     cases = gen_cases(ctx)
     pubs: dict[str, tuple] = {}
 
-    def pub_of(spec):
-        k = json.dumps(spec, sort_keys=True)
-        if k not in pubs:
-            p = H.publish(spec)
-            pubs[k] = (p, H.analysis_input(p.definition))
-        return pubs[k]
+    def pub_of(spec, prev_spec=None):
+        return published_for(H, spec, prev_spec, pubs)
 
     # -- stream "publish": one case per distinct UOD
     specs, seen = [], set()
@@ -272,19 +347,19 @@ def run(ctx: Check) -> int:
 
     def obs_of(c):
         if id(c) not in obs_cache:
-            pub, inp = pub_of(c["spec"])
+            pub, inp = pub_of(c["spec"], c.get("prev_spec"))
             obs_cache[id(c)] = observe(c, pub, inp)
         return obs_cache[id(c)]
 
     def lines(c):
-        return definition_ops(pub_of(c["spec"])[0]) + obs_of(c)["ops"]
+        return definition_ops(pub_of(c["spec"], c.get("prev_spec"))[0]) + obs_of(c)["ops"]
 
     def impl(c):
         o = obs_of(c)
-        n = len(definition_ops(pub_of(c["spec"])[0])) + len(o["ops"]) - 4 - len(o["probe_out"])
+        n = len(definition_ops(pub_of(c["spec"], c.get("prev_spec"))[0])) + len(o["ops"]) - 4 - len(o["probe_out"])
         return ["ok"] * n + o["probe_out"] + ["ok", "ok", o["analysis"], o["accept"]]
 
-    pubcases = [{"spec": c["spec"], "pcode": c["pcode"], "kind": c["kind"]} for c in cases]
+    pubcases = [{"spec": c["spec"], "pcode": c["pcode"], "kind": c["kind"], "prev_spec": c.get("prev_spec")} for c in cases]
     by = {id(p): c for p, c in zip(pubcases, cases)}
     iout, mout = ctx.correspond(
         "accept", "Accept", pubcases, lambda p: lines(by[id(p)]), lambda p: impl(by[id(p)]),
@@ -353,8 +428,10 @@ def replay(obj) -> int:
         print("model (repaired):     " + m[0][-1])
         print("model (before fixes): " + m[1][-1])
         return 0 if published_text(pub.definition) == m[0][-1] else 1
-    pub = H.publish(c["spec"])
-    inp = H.analysis_input(pub.definition)
+    pub, inp = published_for(H, c["spec"], c.get("prev_spec"))
+    if c.get("prev_spec") is not None:
+        print("earlier uod version (its UodInfo reached the aggregator before the engine re-registered): "
+              + json.dumps(c["prev_spec"]))
     o = observe(c, pub, inp)
     ops = definition_ops(pub) + o["ops"]
     m = drive("Accept", [ops, ops[:-2] + ["analyzeold", "acceptold"]])
